@@ -9,7 +9,7 @@ LEVEL = "exploration"
 WARM = None
 RULE = (
     "Hypothesis-generated files = prologue ++ start marker ++ body ++ end marker ++ epilogue, both ISAs: body = 1-12 "
-    "instruction lines of a shipped kernel; prologue/epilogue = 0-4 instruction lines incl. decoys (mov of another "
+    "instruction lines of a shipped kernel with 0-2 look-alikes inserted; prologue/epilogue = 0-4 instruction lines incl. decoys (mov of another "
     "value or into another register, marker mov without .byte, .byte with other values); marker styles: bytes on "
     "one line, on separate lines, OSACA-BEGIN/OSACA-END comments, with trailing comments; leading blank lines so "
     "that line numbers reach 5000; --lines strings over the body's line set rendered with ',', 'a-b', 'a:b'; noise "
@@ -73,6 +73,12 @@ def cases(draw, isa, archs, kernels):
         return out
 
     pro, epi = side(), side()
+    # look-alike mov-immediates also inside the kernel (never as its first line: a .byte line directly after the
+    # start marker's bytes would belong to the marker; never a complete marker)
+    inner = [d for d in DECOYS[isa] if not d.startswith(".byte")]
+    for _ in range(draw(st.sampled_from([0, 0, 1, 2]))):
+        pos = draw(st.integers(1, len(body)))
+        body[pos:pos] = draw(st.sampled_from(inner)).split("\n")
     # a decoy that ends in a bare marker mov must not be followed directly by a .byte line of the real marker
     style = draw(st.sampled_from(["oneline", "separate", "comment", "oneline-commented"]))
     if pro and pro[-1].split("\n")[-1].startswith(("movl $111, %ebx", "movl $222, %ebx", "mov x1, #111", "mov x1, #222")):
@@ -161,7 +167,8 @@ def check_case(case):
     dec = lambda side: any(d in DECOYS[isa] for d in side)
     mixed = any("-" in p or ":" in p for p in pieces) and any(p.isdigit() for p in pieces)
     inner_noise = any(0 < pos < len(case["body"]) for pos, _ in case["noise"])
-    nt = (dec(case["pro"]) and dec(case["epi"])) or mixed or inner_noise
+    body_decoy = any(l in [x for d in DECOYS[isa] for x in d.split("\n")] for l in case["body"])
+    nt = (dec(case["pro"]) and dec(case["epi"])) or mixed or inner_noise or body_decoy
     cl = [isa, "style:" + case["style"], "arch:" + case["arch"]]
     if body_nos[-1] >= 1000:
         cl.append("line-numbers>=1000")
@@ -169,6 +176,8 @@ def check_case(case):
         cl.append("decoy")
     if inner_noise:
         cl.append("noise-inside-kernel")
+    if body_decoy:
+        cl.append("look-alike-inside-kernel")
     if mixed:
         cl.append("lines-range+single")
     return {"nontrivial": nt, "classes": cl, "key": [code, lines_arg, case["noise"], case["arch"], case["fixed"]],
